@@ -55,7 +55,12 @@ fn f_dx(knot_0: Knot, knot_1: Knot, knot_2: Knot) -> f64 {
     let slope01 = (y1 - y0) / (x1 - x0);
     let slope12 = (y2 - y1) / (x2 - x1);
 
-    if slope01 * slope12 <= 0.0 {
+    // compare the signs themselves: the product of two tiny slopes underflows to zero
+    if slope01 == 0.0
+        || slope12 == 0.0
+        || (slope01 < 0.0 && slope12 > 0.0)
+        || (slope01 > 0.0 && slope12 < 0.0)
+    {
         0.0 // slopes change sign, or at least one is flat
     } else {
         2.0 / (slope01.recip() + slope12.recip())
